@@ -331,7 +331,9 @@ class CallMixin:
     def call_builtin(self, st, name, args, module, node):
         h = self.cfg.extern.get(name)
         if h is not None:
-            return h(self, st, args)
+            r = h(self, st, args)
+            if r is not None:          # a handler may decline (None): the generic modelling applies
+                return r
         m = getattr(self, 'b_' + name.replace('.', '_'), None)
         if m is None:
             if '.' in name:
